@@ -15,7 +15,8 @@ PROP = dict(
           dict(name="c04_cxx", memcheck=500, src=["c04_cxx.cpp"], libs=["mpt++", "mptio", "mptplot", "mptcore"], batch=512, lsan=True,
                floors={"insert": 1000, "append": 1000, "set": 1000, "printf": 1000, "slice_write": 500, "state:shared": 5000,
                        "typed_array_insert": 2000, "unique_array_insert": 1000, "map_set": 2000, "map_get": 2000,
-                       "pointer_compact": 2000}),
+                       "pointer_compact": 2000, "value_store_reserve": 20000, "state:reserve-within-shared-length": 2000,
+                       "monitor:value-store-readbacks": 100000}),
           dict(name="c04_users", memcheck=500, src=["c04_users.c"], libs=["mptplot", "mptcore"], batch=512, lsan=True,
                floors={"values_prepare:append": 50000, "values_prepare:repeat": 20000, "valfmt_add": 20000, "valfmt_parse": 5000,
                        "state:shared": 20000, "state:shared-with-spare-capacity": 5000, "state:immutable": 2000,
